@@ -245,6 +245,33 @@ func (m c17) run(c *Ctx, specs []*TypeSpec, calls []c17call) {
 			}
 		}
 	}
+	// a resource created from the type a USED resource reports is zero-valued too (it is "of a type", not a copy)
+	for i, res := range ress {
+		t := specs[i]
+		var fresh jsonapi.Resource
+		if pi := Guard(func() { gt := res.GetType(); fresh = gt.New() }); pi != nil {
+			c.Violate("panic@"+pi.Frame+"/"+panicClass(pi.Val)+"/GetType.New/"+implName(t), "%s", pi)
+			return
+		}
+		var cl, msg string
+		if pi := Guard(func() {
+			soft := *t
+			soft.Wrapped = false
+			if s := checkStructure(&soft, fresh); s != "" {
+				cl, msg = "structure", s
+				return
+			}
+			cl, msg = compareResource(&soft, &ResSpec{Type: base.Name}, fresh, nil, false)
+		}); pi != nil {
+			c.Violate("panic@"+pi.Frame+"/"+panicClass(pi.Val)+"/read-GetType.New/"+implName(t), "%s", pi)
+			return
+		}
+		c.Count("fresh_from_gettype")
+		if cl != "" {
+			c.Violate("fresh-not-zero/GetType.New/"+implName(t)+"/"+cl, "GetType().New() of a used resource: %s; %s", msg, hist(len(calls)))
+			return
+		}
+	}
 	// New() of a used resource is zero-valued with the same structure
 	zero := &ResSpec{Type: base.Name}
 	for i, res := range ress {
@@ -424,6 +451,16 @@ func (m c17) equalityLaws(c *Ctx, specs []*TypeSpec, state *ResSpec) {
 				r4.ToMany[old] = append(append([]string{}, state.ToMany[old]...), "extra-id")
 			}
 			pairs = append(pairs, pair{class: "value", t1: *t, r1: clone(state), t2: *t, r2: r4})
+		}
+		{
+			// a to-many list that repeats an ID against one of the same length with distinct IDs
+			ta := *t
+			ta.Rels = append(append([]RelSpec{}, t.Rels...), RelSpec{Name: "zz-rep", ToType: "x"})
+			ra, rb := clone(state), clone(state)
+			ra.ToMany["zz-rep"] = []string{"a", "b"}
+			rb.ToMany["zz-rep"] = []string{"a", "a"}
+			pairs = append(pairs, pair{class: "value/to-many-repeated", t1: ta, r1: ra, t2: ta, r2: rb})
+			pairs = append(pairs, pair{class: "value/to-many-repeated", t1: ta, r1: rb, t2: ta, r2: ra})
 		}
 		{
 			// one more relationship / one more attribute on one side only (the other side's names are a strict subset)
